@@ -224,6 +224,26 @@ def synthetic_name_collisions():
         "/uses": {"get": {"operationId": "getUses", "responses": {"200": jresp(R("Uses"))}}}})
 
 
+def numeric_mapping_keys():
+    """discriminator mapping whose keys are numbers written as strings (a YAML author may leave them unquoted)"""
+    d = doc("Shapes", {
+        "Circle": {"type": "object", "required": ["kind", "r"], "properties": {"kind": {"type": "string"}, "r": {"type": "number"}}},
+        "Square": {"type": "object", "required": ["kind", "s"], "properties": {"kind": {"type": "string"}, "s": {"type": "number"}}},
+        "Shape": {"oneOf": [R("Circle"), R("Square")], "discriminator": {"propertyName": "kind", "mapping": {"1": "#/components/schemas/Circle", "2": "#/components/schemas/Square"}}},
+    }, {"/shapes": {"get": {"operationId": "listShapes", "responses": {"200": jresp({"type": "array", "items": R("Shape")})}}}})
+    return d
+
+
+def many_inline_lists():
+    """many schemas that are arrays of inline objects, declared before schemas that refer to one another"""
+    sch = {}
+    for i in range(160):
+        sch[f"L{i:03d}"] = {"type": "array", "items": {"type": "object", "properties": {"v": {"type": "integer"}}}}
+    sch["Customer"] = {"type": "object", "properties": {"name": {"type": "string"}, "address": R("Address"), "tier": {"type": "string", "enum": ["a", "b"]}}}
+    sch["Address"] = {"type": "object", "properties": {"street": {"type": "string"}, "owner": R("Customer")}}
+    return doc("Many", sch, {"/c": {"get": {"operationId": "getCustomer", "responses": {"200": jresp(R("Customer"))}}}})
+
+
 REP = {
     "petstore": petstore,
     "unions": enums_and_unions,
@@ -237,6 +257,8 @@ REP = {
     "multi2xx": several_success_codes,
     "tag_spellings": tag_spellings,
     "synthetic": synthetic_name_collisions,
+    "numeric_mapping": numeric_mapping_keys,
+    "many_lists": many_inline_lists,
     "no_ops": no_operations,
     "no_schemas": no_schemas,
 }
